@@ -149,10 +149,20 @@ func TestCheck(t *testing.T) {
 	}
 	ties := &tieBook{}
 	done := true
-	done = outboundFixed(r) && done
-	done = outbound(r, deadline, workers, ties) && done
-	done = inbound(t, r, deadline, workers) && done
-	done = endToEnd(t, r, deadline, workers, ties) && done
+	phases := map[string]float64{}
+	timed := func(name string, f func() bool) {
+		t0 := time.Now()
+		done = f() && done
+		phases[name] = float64(time.Since(t0).Milliseconds()) / 1000
+	}
+	// inbound and end-to-end first: they are the small parts and must not be the ones a budget cut-off loses
+	timed("fixed", func() bool { return outboundFixed(r) })
+	timed("inbound", func() bool { return inbound(t, r, deadline, workers) })
+	timed("e2e", func() bool { return endToEnd(t, r, deadline, workers, ties) })
+	stopProf := startProf()
+	timed("outbound", func() bool { return outbound(r, deadline, workers, ties) })
+	stopProf()
+	r.Set("phase_wall_s", phases)
 	if !done {
 		r.NotExhaustive("wall budget reached before the enumeration was complete")
 	}
